@@ -254,13 +254,13 @@ class Ctx:
         return self.record_validate("@cases", ncases, trmodule, trcfg, name=name, args=[cases])
 
     def record_validate(self, driver, n, module, cfg, name=None, timeout=1800, args=None,
-                        sequential=False, devs=None, base_tag="base", **kw):
+                        sequential=False, devs=None, base_tag="base", seed_offset=0, **kw):
         """The harness drives the real code with seeded generated inputs and records one
         ndjson event per call; TLC re-evaluates the specification along the trace."""
         name = name or driver
         trace = os.path.join(self.work, name + ".trace.ndjson")
         t0 = time.time()
-        cmd = [harness_bin("record"), driver, str(self.seed), str(n), trace,
+        cmd = [harness_bin("record"), driver, str(self.seed + seed_offset), str(n), trace,
                "5" if self.quick else "30"] + [str(a) for a in (args or [])]
         p = subprocess.run(cmd, capture_output=True, text=True)
         if p.returncode != 0:
